@@ -83,42 +83,53 @@ def _header_text(src, kw, e):
     return i, src.text[toks[kw].pos:toks[i].pos].strip()
 
 
+def _matches(src, s, e, kind, name):
+    kw, word = _item_keyword(src, s, e)
+    if kw is None or word != kind:
+        return None
+    brace, header = _header_text(src, kw, e)
+    header_n = " ".join(header.split())
+    if kind == "impl":
+        want = " ".join(name.split())
+        stripped = re.sub(r"<[^<>]*(<[^<>]*>[^<>]*)*>", "", header_n)
+        stripped = " ".join(stripped.split())
+        if want == stripped[len("impl"):].strip() or want == header_n[len("impl"):].strip():
+            return (s, e, kw, brace)
+        return None
+    m = re.match(r"%s\s+([A-Za-z_][A-Za-z0-9_]*)" % kind, header_n)
+    if m and m.group(1) == name:
+        return (s, e, kw, brace)
+    return None
+
+
 def locate(src, path):
     """Locate an item.  `path` is e.g. "fn expected", "struct Chance",
-    "impl Iterator for NamedStrategyIter / fn next", "mod tests".  impl/trait headers are matched
-    by normalised-whitespace *substring* on the header text.  Returns dict with token indices."""
+    "impl Iterator for NamedStrategyIter / fn next".  impl headers are matched on their
+    whitespace-normalised text with or without generics; when several impl blocks match, the one
+    that contains the rest of the path is taken.  Returns dict with token indices."""
     parts = [p.strip() for p in path.split("/")]
-    lo, hi = 0, len(src.toks)
-    found = None
-    for depth, part in enumerate(parts):
-        kind, _, name = part.partition(" ")
+
+    def search(depth, lo, hi):
+        kind, _, name = parts[depth].partition(" ")
         name = name.strip()
-        hit = None
         for (s, e) in _top_level_items(src, lo, hi):
-            kw, word = _item_keyword(src, s, e)
-            if kw is None or word != kind:
+            hit = _matches(src, s, e, kind, name)
+            if hit is None:
                 continue
-            brace, header = _header_text(src, kw, e)
-            header_n = " ".join(header.split())
-            if kind in ("impl",):
-                want = " ".join(name.split())
-                # compare with generics stripped too
-                stripped = re.sub(r"<[^<>]*(<[^<>]*>[^<>]*)*>", "", header_n)
-                stripped = " ".join(stripped.split())
-                if want == stripped[len("impl"):].strip() or want == header_n[len("impl"):].strip():
-                    hit = (s, e, kw, brace)
-                    break
-            else:
-                m = re.match(r"%s\s+([A-Za-z_][A-Za-z0-9_]*)" % kind, header_n)
-                if m and m.group(1) == name:
-                    hit = (s, e, kw, brace)
-                    break
-        if hit is None:
-            raise Undecided("lost anchor: %r (component %r) not found" % (path, part))
-        s, e, kw, brace = hit
-        found = dict(start=s, end=e, kw=kw, brace=brace if src.toks[brace].text == "{" else None)
-        if found["brace"] is not None:
-            lo, hi = found["brace"] + 1, src.pairs[found["brace"]]
+            s0, e0, kw, brace = hit
+            found = dict(start=s0, end=e0, kw=kw, brace=brace if src.toks[brace].text == "{" else None)
+            if depth + 1 == len(parts):
+                return found
+            if found["brace"] is None:
+                continue
+            sub = search(depth + 1, found["brace"] + 1, src.pairs[found["brace"]])
+            if sub is not None:
+                return sub
+        return None
+
+    found = search(0, 0, len(src.toks))
+    if found is None:
+        raise Undecided("lost anchor: %r not found" % path)
     return found
 
 
@@ -498,10 +509,44 @@ def rule_R13(src, ed, lo, hi, fname):
             ed.insert(toks[i + 2].end, ")", order=-2)
 
 
+def rule_R3m(src, ed, lo, hi, fname):
+    """match arm whose tuple pattern contains a fixed-size array pattern of identifiers / `_`:
+    `(P, [_, two]) => E,` -> `(P, __aK) => { let two = __aK[1]; E },` (arrays of Copy scalars; the array
+    pattern is irrefutable, arms stay in order)."""
+    toks = src.toks
+    n = 0
+    i = lo
+    while i < hi:
+        t = toks[i]
+        if (not _skipped(i)) and t.text == "[" and toks[i - 1].text in (",", "(") and i + 1 < hi:
+            c = src.pairs[i]
+            # inside a parenthesised pattern directly followed by `=>` ?
+            j = c + 1
+            while j < hi and toks[j].text == ")":
+                j += 1
+            inner = toks[i + 1:c]
+            names_ok = all((x.kind == "ident" and x.text not in ("mut", "ref")) or x.text == "," for x in inner)
+            if j < hi and toks[j].text == "=>" and toks[c + 1].text == ")" and names_ok and inner:
+                names = [x.text for x in inner if x.kind == "ident"]
+                tmp = "__a%d" % n
+                n += 1
+                e = _stmt_end(src, j + 1, hi)
+                lets = " ".join("let %s = %s[%d];" % (nm, tmp, k) for k, nm in enumerate(names) if nm != "_")
+                ed.replace(t.pos, toks[c].end, tmp, rule="R3 %s: array pattern `[%s]` in match arm" % (fname, ", ".join(names)))
+                if toks[j + 1].text == "{":
+                    ed.insert(toks[j + 1].end, " " + lets + " ", order=4)
+                else:
+                    ed.insert(toks[j + 1].pos, "{ " + lets + " ", order=-4)
+                    ed.insert(toks[e - 1].end, " }", order=4)
+                i = c + 1
+                continue
+        i += 1
+
+
 F64_FIELDS = []   # set per function from the unit (`f64_fields`): struct fields of type f64
 
 
-RULES = {"R13": rule_R13, "R12": rule_R12, "R2": rule_R2, "R9": rule_R9, "R1": rule_R1, "R3": rule_R3, "R7": rule_R7, "R8": rule_R8, "R10": rule_R10}
+RULES = {"R3m": rule_R3m, "R13": rule_R13, "R12": rule_R12, "R2": rule_R2, "R9": rule_R9, "R1": rule_R1, "R3": rule_R3, "R7": rule_R7, "R8": rule_R8, "R10": rule_R10}
 SKIP = []  # token ranges (s, e) in which rules must not fire (abstracted statements)
 
 
